@@ -8,10 +8,13 @@ Ops5 == {A(<<"A">>, "n", "res2"), A(<<"B">>, "n", "fac"), G("A", "n", "wait"), G
 \* C06 family: matching and non-matching publications of every kind against every kind of lookup of (A, m)
 Ops6Add == {A(<<"A">>, "m", "res"), A(<<"A">>, "m", "res2"), A(<<"A">>, "n", "res"), A(<<"B">>, "m", "res"), A(<<"A">>, "m", "fac"), A(<<"A">>, "m", "afac"),
             A(<<"A", "B">>, "m", "res"), A(<<"A">>, "default", "res")}
-Ops6Get == {G("A", "m", "wait"), G("A", "m", "opt"), G("A", "m", "nowait")}
+Ops6Get == {G("A", "m", "wait"), G("A", "m", "giveup"), G("A", "m", "opt"), G("A", "m", "nowait")}
 Ops6 == Ops6Add \cup Ops6Get
 Ops6Prep == {A(<<"A">>, "m", "res"), G("A", "m", "wait")}
 Ops6PrepQuick == {A(<<"A">>, "m", "res")}
+\* focused family: waiters that give up (a timeout of their own) next to waiters that stay, and a publication afterwards
+Ops6bPrep == {A(<<"A">>, "m", "res"), G("A", "m", "giveup")}
+Ops6bStart == {A(<<"A">>, "m", "res"), G("A", "m", "wait"), G("A", "m", "giveup")}
 Ops7 == {Noop}
 Dump == Terminal => PrintT(ToJson([prog |-> prog, hist |-> hist, fin |-> rt.sc]))
 =============================================================================
